@@ -43,6 +43,8 @@ def W9_pairing(rep, flow: Flow):
         bo = r.heap[be.oid] if isinstance(be, Ref) else None
         bsym = bo.elem if bo is not None else be
         bprov = set(bsym.prov) if isinstance(bsym, Sym) else set()
+        if not cfiles or not bprov:
+            raise AnalysisError(f"{acc}: the file provenance of the circuits ({len(cfiles)}) or of the bases ({len(bprov)}) is lost in a transformation: W9 cannot decide that both come from the same line")
         if cfiles and cfiles == bprov:
             rep.ok("W9", 1, nontrivial="same-file", sample=f".{ck} and .{bk} are both read from {fmt(next(iter(cfiles))[1])}")
         else:
